@@ -156,6 +156,7 @@ def run(rep, F, rule):
             ex.live_iter_mut = True
             ex.resolve_by_receiver = True
             ex.fold_ground_eq = True
+            ex.assume_reflexive = True        # f(a) == f(a) for one and the same term (rings are closed by repeating the first NAME)
             try:
                 if trait == MC:
                     paths = ex.run(fn, args=[("&", shape), ("arg", 2)])
